@@ -286,7 +286,10 @@ func genIfHas(p *pkgFiles, goName, evt, target string, out *strings.Builder) {
 	call := src(fd.Body.List[1])
 	if !strings.HasPrefix(call, "m."+target+"(") || !strings.HasSuffix(call, ", true)") {
 		problem("%s: does not delegate to %s(..., true): %s", where, target, call)
+		return
 	}
+	name := strings.ToLower(goName[:1]) + goName[1:]
+	fmt.Fprintf(out, "/-- `%s` is `if !m.hasObservers[%s] { return }; m.%s(…, true)` (shape checked by the extractor) -/\ndef %s_wrapper : Unit := ()\n\n", goName, evt, target, name)
 }
 
 // trNat translates an integer expression to a Lean Nat expression, tracking uint8 arithmetic.
@@ -527,19 +530,36 @@ func genTableCaps(p *pkgFiles, out *strings.Builder) {
 	}
 }
 
-func genLogic(p *pkgFiles) string {
+func genHeader(what, imports string) string {
+	return "/-\n  GENERATED by /verif/tools/extract from /repo/ecs — do not edit.\n  " + what + "\n-/\n" + imports + "\n\nnamespace Ark.Generated\nopen Ark\n\n"
+}
+
+func genLogic(p *pkgFiles, files map[string]string) {
 	var out strings.Builder
-	out.WriteString("/-\n  GENERATED by /verif/tools/extract from /repo/ecs — do not edit.\n  T1: definitions of ark's decision logic, regenerated from the Go source on every run.\n-/\nimport Ark.Model.Mask\n\nnamespace Ark.Generated\nopen Ark\n\n")
+	out.WriteString(genHeader("T1: observer firing conditions (events.go), regenerated on every run.", "import Ark.Model.Mask"))
 	for _, fs := range fireSpecs {
-		genFire(p, fs, &out)
+		fs := fs
+		fragment(&out, "events.go:"+fs.goName, func(o *strings.Builder) { genFire(p, fs, o) })
 	}
-	genIfHas(p, "FireCreateEntityIfHas", "OnCreateEntity", "FireCreateEntity", &out)
-	genIfHas(p, "FireCreateEntityRelIfHas", "OnAddRelations", "FireCreateEntityRel", &out)
-	genIfHas(p, "FireAddIfHas", "evt", "FireAdd", &out)
-	genObserverReset(p, &out)
-	genFilterMatches(p, &out)
-	genToTypes(p, &out)
-	genTableCaps(p, &out)
+	fragment(&out, "events.go:FireCreateEntityIfHas", func(o *strings.Builder) {
+		genIfHas(p, "FireCreateEntityIfHas", "OnCreateEntity", "FireCreateEntity", o)
+	})
+	fragment(&out, "events.go:FireCreateEntityRelIfHas", func(o *strings.Builder) {
+		genIfHas(p, "FireCreateEntityRelIfHas", "OnAddRelations", "FireCreateEntityRel", o)
+	})
+	fragment(&out, "events.go:FireAddIfHas", func(o *strings.Builder) { genIfHas(p, "FireAddIfHas", "evt", "FireAdd", o) })
 	out.WriteString("end Ark.Generated\n")
-	return out.String()
+	files["Obs"] = out.String()
+
+	one := func(name, what, frag string, gen func(p *pkgFiles, out *strings.Builder)) {
+		var out strings.Builder
+		out.WriteString(genHeader(what, "import Ark.Model.Mask"))
+		fragment(&out, frag, func(o *strings.Builder) { gen(p, o) })
+		out.WriteString("end Ark.Generated\n")
+		files[name] = out.String()
+	}
+	one("ObsReset", "T1: loop bound of observerManager.Reset.", "events.go:observerManager.Reset", genObserverReset)
+	one("Filter", "T1: filter.matches.", "filter.go:filter.matches", genFilterMatches)
+	one("ToTypes", "T1: the arithmetic of bitMask256.toTypes.", "mask256.go:toTypes", genToTypes)
+	one("TableCaps", "T1: capacity decisions of table.Extend / Shrink / CanShrink.", "table.go:capacities", genTableCaps)
 }
